@@ -20,6 +20,8 @@ Decided (label, scope and stack-pointer discipline of the code generator; struct
         pc on every path to Ok, and every RunState method that calls run() goes through it first.
  R6 K5  struct literals are complete: lower_struct_literal checks the definition against the literal
         (every defined field is initialised), the converse of its per-field existence check.
+ R7 K5  argument counts: every zip() of call arguments with declared parameters in lower.rs is preceded
+        by a comparison of the two lengths, locally or at every call site (sibling agreement).
 Not decided: type mismatches, undefined variables and stack underflow for arbitrary accepted
 programs (needs the soundness of the type checker in lower.rs; value-level)."""
 from rules.core import emit, pat
@@ -329,3 +331,37 @@ def struct_literal_rule(F, rep):
               "lower_struct_literal checks the definition against the literal (count comparison or a scan of the definition's fields for one the literal lacks)",
               "lower_struct_literal never checks that every field of the struct definition is initialised: `S { a: x }` for `struct S { a int, b int }` compiles and "
               "`s.b` then stops the VM with an invalid-struct-member error", f.site())
+    arity_rule(F, rep)
+
+
+def arity_rule(F, rep):
+    """R7 (contradiction rule): wherever lowering pairs call arguments with declared parameters by `zip`
+    (which silently stops at the shorter side), the two lengths are compared first - in the same function,
+    or at every call site of it. Most pairings do; one that does not accepts calls with missing arguments,
+    and the callee then pops an empty stack."""
+    L = "aranya_policy_compiler::compile::lower::"
+
+    def lencmps(f):
+        out = []
+        for c in f.cmp_switches():
+            oa = f.origins(c["a"], through_calls="*")
+            ob = f.origins(c["b"], through_calls="*")
+            if "call:len" in oa and "call:len" in ob:
+                out.append(c)
+        return out
+
+    n = 0
+    for f in F.fns:
+        if not f.path.startswith(L) or f.derived:
+            continue
+        for z in [c for c in f.calls if c.is_("Iterator::zip", "iter::zip")]:
+            n += 1
+            local = [c for c in lencmps(f) if f.dominates(c["bb"], z.bb)]
+            callers = F.callers_of(f.path)
+            at_callers = bool(callers) and all(any(g.dominates(x["bb"], c.bb) for x in lencmps(g)) for g, c in callers if g is not f)
+            name = f.path[len(L):]
+            rep.check(bool(local) or at_callers, "arity|%s|zip-after-length-check" % name, "K5 sibling agreement",
+                      "the zip of arguments and parameters in %s is preceded by a comparison of the two lengths (%s)" % (name, "locally" if local else "at every call site"),
+                      "%s pairs arguments with parameters by zip() without any comparison of their counts, here or at its call sites (its sibling lowerings all compare them): "
+                      "a call with too few arguments is accepted and the callee pops an empty stack" % name, z.site())
+    rep.floor("argument/parameter zips in lower.rs", n, 5)
